@@ -2,6 +2,7 @@
 //! exit 0 = property held on everything explored, 1 = violation, 2 = inconclusive.
 mod canon;
 mod engine;
+mod exec;
 mod genr;
 mod sem;
 mod lit;
